@@ -691,6 +691,22 @@ def guarded_sinks(prog, v, mechanisms, sinks, require_fail_err=True, depth=0):
                 hs = hs - guarded_sinks(prog, hv, mechanisms, hs, require_fail_err, depth + 1)
                 if fnd and not sep(H, pe, hs):
                     out.add(b)
+                    continue
+            # `x.and_then(|v| { check(v)?; Ok(..) })` returned as it is: the closure is the helper, its parameter the Ok payload
+            Tp = peel_result(T)
+            if is_call(Tp) and Tp[1].rsplit("::", 1)[-1] == "and_then" and len(Tp[2]) == 2 and Tp[2][1][0] == "closure":
+                from .terms import okval
+                clo = Tp[2][1]
+                cf = prog.fns.get(clo[1])
+                if cf is not None and cf.has_body:
+                    sub = {1: ("agg", "tuple", None, None, tuple((str(n), val) for n, val in enumerate(clo[2]))),
+                           2: (("some", Tp[2][0]) if "option" in Tp[1] else okval(Tp[2][0]))}
+                    cv = FnView(prog, cf, sub, v.frames + (("clo", clo[1]),))
+                    hs = success_sinks(cf) if (cf.j.get("output") or "") else ok_sinks(cf)
+                    pe, fnd = pass_edges_of(prog, cv, mechanisms, hs, require_fail_err, depth + 1)
+                    hs = hs - guarded_sinks(prog, cv, mechanisms, hs, require_fail_err, depth + 1)
+                    if fnd and not sep(cf, pe, hs):
+                        out.add(b)
     return out
 
 
@@ -1350,7 +1366,7 @@ def pred_core(t):
     """strip Into::into / Not wrappers of a boolean predicate term -> (core term, positive?)"""
     pos = True
     while isinstance(t, tuple) and t:
-        if is_call(t, name="into") and len(t[2]) == 1:
+        if (is_call(t, name="into") or (is_call(t, name="from") and (t[4] == "bool" or "bool" in str(t[4] or "")))) and len(t[2]) == 1:
             t = t[2][0]
         elif is_call(t, name="not") and len(t[2]) == 1:
             pos = not pos
@@ -2220,6 +2236,23 @@ def exact_length(prog, fn, sinks, inp, const_n=None, sum_of=None):
             array_len_of_type(t[4] if len(t) > 4 and isinstance(t[4], str) else "") == const_n
         if sep_holds(prog, fn, [("<&[u8; N]>::try_from", succ_fact(tf))], sinks, require_fail_err=False):
             return "<&[u8; %d]>::try_from(..) is Ok" % const_n
+        # inp.split_first_chunk::<N1>() is Some and <&[u8; N2]>::try_from(rest) is Ok, N1 + N2 == N
+        def chunk_n(t):
+            ci, _term = call_info(prog, t)
+            g = (ci or {}).get("gargs") or []
+            return int(g[-1]) if g and str(g[-1]).isdigit() else None
+        sfc = lambda t: is_call(t, name="split_first_chunk") and len(t[2]) == 1 and inp(t[2][0]) and chunk_n(t) is not None
+        v_ = FnView.get(prog, fn)
+        for (e_, fa_) in v_.own_facts:
+            if fa_[0] == "succ" and fa_[2] and sfc(peel_result(fa_[1])):
+                sp_t = peel_result(fa_[1])
+                n1 = chunk_n(sp_t)
+                rest = lambda t, sp_t=sp_t: t == ("field", ("some", sp_t), None, "1")
+                tf2 = lambda t, n1=n1, rest=rest: is_call(t) and t[1].rsplit("::", 1)[-1] == "try_from" and len(t[2]) == 1 and rest(t[2][0]) and \
+                    array_len_of_type(t[4] if len(t) > 4 and isinstance(t[4], str) else "") == const_n - n1
+                if sep_holds(prog, fn, [("split_first_chunk", succ_fact(lambda t, sp_t=sp_t: t == sp_t))], sinks, require_fail_err=False) and \
+                        sep_holds(prog, fn, [("rest try_from", succ_fact(tf2))], sinks, require_fail_err=False):
+                    return "split_first_chunk::<%d>() is Some and <&[u8; %d]>::try_from(rest) is Ok" % (n1, const_n - n1)
         return None
     pa, pb = sum_of
     total = lambda t: t[0] == "bin" and t[1] in ("Add", "AddWithOverflow") and ((pa(t[2]) and pb(t[3])) or (pa(t[3]) and pb(t[2])))
@@ -2332,3 +2365,22 @@ def blocks_after_check(r, blocks):
     for s0 in starts:
         reach |= F.reach(s0, removed=frozenset(r["edges"]))
     return bool(blocks) and not (reach & set(blocks))
+
+
+def call_info(P, t):
+    """(callee info dict, terminator) of the call a term was built from, found through its site — generic arguments and argument
+    types are not part of the term"""
+    if not is_call(t) or not t[3]:
+        return None, None
+    site = t[3]
+    key = site[2] if site[0] == "inl" else site[0]
+    bb = site[-1]
+    f = P.fns.get(key)
+    if f is None or not f.has_body or not isinstance(bb, int) or bb >= len(f.blocks):
+        return None, None
+    term = f.blocks[bb].term
+    from .mir import callee_of
+    ci = callee_of(term)
+    if ci is None or ci.get("path") != t[1]:
+        return None, None
+    return ci, term
